@@ -70,6 +70,14 @@ claim("C13", "MIR construction-site enumeration (constructor gate) + HIR guard d
       "Eq/Ord/Hash are the derived field-wise impls on the single private OffsetDateTime field; serde try_from/into wiring.",
       "correctness of the `time` crate's RFC 3339 parser/formatter and unix conversion; leap seconds.", "DESIGN.md §7 C13")
 
+claim("C10", "MIR construction-site gate (must-pass-success of check_validity) + HIR guard inventory + field-pair coverage of eq/cmp/hash/Display + character-class extraction vs W3C DID / RFC 3986 tables",
+      "Decides for all strings/segments: CoreDID(..) is constructed only on paths that passed check_validity (method name, method id, scheme, no path/query/fragment) and every string/serde entry "
+      "delegates to it; setters write only after their validator succeeded, each with its own character class and delimiter normalisation, and only the setters write RelativeDIDUrl's private fields; "
+      "DIDUrl is built only at four reviewed sites, from_base_did_url validates all three segments and strips them before building the DID, join requires a leading '/', '?' or '#' and returns through "
+      "the gate; RelativeDIDUrl eq/cmp compare the same field on both sides through the same projection in the order path, query, fragment with lexicographic nesting, hash = Display = the three "
+      "fields; DIDUrl composes did then url; the five character classes equal the specification sets exactly and every percent escape requires '%' + exactly two hex digits.",
+      "what the external did_url_parser accepts/normalises (incl. its panic on a trailing percent escape, reported under C05); verbatim reproduction of the input.", "DESIGN.md §7 C10")
+
 for _p, _r in {
     "C01": "rules not yet implemented in this revision (planned, DESIGN §7)", "C02": "rules not yet implemented in this revision",
     "C03": "rules not yet implemented in this revision", "C04": "rules not yet implemented in this revision",
